@@ -22,12 +22,14 @@ class C09(core.Check):
             'optional pre-materialization prefix (col_select with a single string or a list, legal / unknown look-alike '
             'names, illegal calls) -> materialize -> up to 8 (0.6% of the histories: 17..35) operations from '
             '{index_select / __getitem__ with int, list, range, int64/int32 tensor, bool mask (tensor or list), int '
-            'slice, slice with float bounds and steps; index arguments of ladder length incl. longer than the dataset; '
+            'slice, slice with float bounds and steps - every combination of None / int / float bounds with step None / 1 / 2 / 3 / 5 / '
+            '~n/2 / > n; index arguments of ladder length incl. longer than the dataset; '
             'the same index object passed again; shuffle (seeded torch RNG, return_perm on every other call); get_split; '
             'split(); split() and the three get_split() on the same dataset in any order; tensor_frame; materialize '
             'again; col_select (illegal)} each applied to ANY previously derived dataset; about 8% of the indices are '
             'deliberately illegal. 1 of 4 cases is a generate_random_split call (length 0..120 quick / 0..300 thorough '
-            'plus ladder lengths, ratios from decimal / dyadic / thirds / random doubles / non-positive / >= 1, '
+            'plus ladder lengths, ratios from decimal / dyadic / thirds / random doubles / non-positive / >= 1, 12% pairs of decimal '
+            'literals on a 0.1 / 0.05 / 0.01 / 0.001 grid whose decimal sum is exactly 1 or misses it by one grid step, '
             'include_test on and off, seed < 2^32) run twice under different prior states of the global numpy '
             'generator. Frames or index arguments above 20000 rows are judged by the direct oracle only. A history is '
             'non-trivial when at least one derived dataset has >= 1 row; a generator case when it returns >= 2 entries. '
@@ -229,6 +231,15 @@ class C09(core.Check):
                 labs.append('scale:split-generator-length:257+')
             if self._too_big_for_model(case):
                 labs.append('oracle-only:too-big-for-the-list-model')
+            fs = Fraction(*case['rt']) + Fraction(*case['rv'])
+            if Fraction(*case['rt']) > 0 and Fraction(*case['rv']) > 0:
+                labs.append('gen:ratio-sum:' + ('exactly-1' if fs == 1 else '<1' if fs < 1 else '>1') + f":include_test={case['it']}:"
+                            + ('raises' if out == 'raises' else 'ok'))
+            if case.get('fam') == 'decimal-pair':
+                labs.append('gen:decimal-literal-pair')
+                x, y = case['rt'][0] / case['rt'][1], case['rv'][0] / case['rv'][1]
+                if fs == 1 and 1 - x - y != 0:
+                    labs.append('gen:decimal-pair:sum-exactly-1-but-1-a-b-nonzero-in-floats')
             return labs
         nsteps = len(case['ops'])
         labs = ['kind:hist', f"rows:{self._bucket(case['n'])}", f"labels:{case['label_kind']}", f"ctor:{case['ctor']}",
@@ -287,6 +298,10 @@ class C09(core.Check):
                 if t == 'slice':
                     fl = any(isinstance(ix.get(x), dict) for x in 'ab')
                     t = ('fslice' if fl else 'slice') + ('' if ix.get('s') in (None, 1) else ':step')
+                    kind = lambda b: 'None' if b is None else 'float' if isinstance(b, dict) else 'int'   # noqa: E731
+                    st = ix.get('s')
+                    labs.append(f"slice-form:{kind(ix.get('a'))}:{kind(ix.get('b'))}:step="
+                                + ('None' if st is None else '1' if st == 1 else '>1' if st > 1 else '<=0') + f':{res}')
                 else:
                     t = f"{t}/{ix.get('as', '')}"
                     if ix.get('as') in ('tensor', 'tensor32'):
@@ -383,6 +398,12 @@ class C09(core.Check):
                 if not isinstance(a, dict) and not isinstance(b, dict):
                     continue
                 ops.append({'op': 'select', 'src': 0, 'ix': {'t': 'slice', 'a': a, 'b': b, 's': None}})
+            # the three-argument form: every kind of bound (None / int / float) x step 1 / 2 / 3 / 7 on a coarser grid
+            coarse = [b for b in ok_bounds if not isinstance(b, dict) or b['f'] in ([0, 8], [2, 8], [4, 8], [7, 8], [8, 8], [3, 10],
+                                                                                 [9, 10], [-2, 8], [1, 3], [12, 10])] + [1, n]
+            for a, b in itertools.product(coarse, coarse):
+                for st in (1, 2, 3, 7):
+                    ops.append({'op': 'select', 'src': 0, 'ix': {'t': 'slice', 'a': a, 'b': b, 's': st}})
             case = {'kind': 'hist', 'n': n, 'labels': list(range(5, 5 + n)), 'label_kind': 'offset',
                     'cols': ['rid', 'y'], 'target': 'y', 'split': [i % 3 for i in range(n)], 'ctor': 'ok',
                     'split_dtype': 'int64', 'ops': ops}
@@ -412,7 +433,8 @@ class C09(core.Check):
                     disagree('fractional-slice box', {'n': n}, str(real)[:200], str(model)[:200])
         extra['fractional_slice_box'] = {'cases': ncase, 'lengths': str(list(sizes)),
                                          'bounds': 'None, k/8 (k=-3..11), k/10 (k=-2..12), k/3 (k=0..3), 2, -2; every '
-                                                   'ordered pair with at least one float bound',
+                                                   'ordered pair with at least one float bound, step None; plus every ordered '
+                                                   'pair of a coarser grid (None, 10 fractions, 2, -2, 1, n) with steps 1, 2, 3, 7',
                                          'float-boundary-skipped': skipped, 'exhaustive': True, 'disagreements': nbad}
 
         # (3) split-generator box: all lengths x all ratio pairs of a grid x include_test x seeds
@@ -443,6 +465,33 @@ class C09(core.Check):
                         cases.append(case)
                         reals.append(out)
                         reqs += self.model_requests(case)
+        # every decimal pair of the 0.01 grid whose decimal sum is exactly 1, and its two neighbours (sum 0.99 / 1.01)
+        dec = 0
+        for k in range(1, 100):
+            for j in (100 - k, 99 - k, 101 - k):
+                if j <= 0:
+                    continue
+                for it in (True, False):
+                    for n in ((10, 15, 100) if thorough else (10, 15)):
+                        rt, rv = [k, 100], [j, 100]
+                        if not G.split_float_ok(n, rt, rv, it):
+                            gskipped += 1
+                            continue
+                        case = {'kind': 'gen', 'n': n, 'seed': 3, 'rt': rt, 'rv': rv, 'it': it, 'prior': [4, 4242], 'burn': 0,
+                                'fam': 'decimal-pair'}
+                        out, findings = G.run_real_split(case)
+                        self._findings = findings
+                        v = self.oracle(case, out)
+                        self._findings = []
+                        if v is not None:
+                            v.key = 'box/' + v.key
+                            report['violations'].append(v)
+                        cases.append(case)
+                        reals.append(out)
+                        reqs += self.model_requests(case)
+                        dec += 1
+        extra['split_generator_decimal_pairs'] = {'cases': dec, 'grid': 'k/100 with (100-k)/100, (99-k)/100, (101-k)/100, k=1..99',
+                                                  'include_test': 'both'}
         gbad = 0
         for case, out, rep in zip(cases, reals, drv.ask(reqs)):
             if rep != out:
